@@ -165,6 +165,26 @@ func corpus(e *ev.Env) {
 					{present: "@first", ops: []op{{K: "byid", Tgt: "@first"}, k("save")}},
 				})
 			})
+			// Regenerate changes the id, not the age: the absolute deadline still counts from creation
+			e.Corpus("absolute-timeout-regenerate-"+name, func(c *ev.Case) {
+				cfg := base
+				cfg.Idle, cfg.Abs = 3*sec, 4*sec
+				for _, mw := range []bool{true, false} {
+					fin := func(ops ...op) []op {
+						if !mw {
+							ops = append(ops, k("save"))
+						}
+						return ops
+					}
+					runFixed(e, c, cfg, 1, []cstep{
+						{mw: mw, ops: fin(set("k0", "v0.1"))},
+						{adv: 1400 * ms, mw: mw, present: "@jar", ops: fin(get("k0"), k("regen"), set("k1", "v0.2"))},
+						{adv: 1400 * ms, mw: mw, present: "@jar", ops: fin(get("k0"), get("k1"))}, // 2.8 s: alive
+						{adv: 1400 * ms, ops: []op{{K: "byid", Tgt: "@jar"}}},                     // 4.2 s: gone (GetByID)
+						{mw: mw, present: "@jar", ops: fin(get("k0"), get("k1"))},                 // gone (request path)
+					})
+				}
+			})
 			// GetByID past the absolute deadline (entry still within its idle timeout)
 			e.Corpus("absolute-timeout-getbyid-"+name, func(c *ev.Case) {
 				cfg := base
